@@ -170,6 +170,9 @@ func init() {
 			if k := i - ctx.N(18, 120) - 24; k >= 0 && k < 2 {
 				return caseIdentifierCase(k)
 			}
+			if k := i - ctx.N(18, 120) - 26; k >= 0 && k < 22 {
+				return ignoredKeywordCase(k)
+			}
 			return nil
 		},
 		args: func(r *sg.Rng, root *sg.Schema) []string {
@@ -229,6 +232,9 @@ func init() {
 		if k := i - ctx.N(12, 90) - ctx.N(8, 32) - 65; k >= 0 && k < 12 {
 			return mixinBranchCase(k)
 		}
+		if k := i - ctx.N(12, 90) - ctx.N(8, 32) - 77; k >= 0 && k < 22 {
+			return ignoredKeywordCase(k)
+		}
 		return nil
 	}
 	regSem(&semSpec{id: "C03",
@@ -278,11 +284,11 @@ func init() {
 			if i < 44 {
 				return nullableDefCase(i - 32)
 			}
-			if i < 60 {
+			if i < 64 {
 				return controlPatternCase(i - 44)
 			}
-			if i < 68 {
-				return extFieldCase(i - 60)
+			if i < 72 {
+				return extFieldCase(i - 64)
 			}
 			return nil
 		},
@@ -300,10 +306,13 @@ func init() {
 			if i > ctx.N(24, 96)+12 && i <= ctx.N(24, 96)+20 {
 				return extFieldCase(i - ctx.N(24, 96) - 13)
 			}
+			if i > ctx.N(24, 96)+20 && i <= ctx.N(24, 96)+26 {
+				return titledNestedArrayCase(i - ctx.N(24, 96) - 21)
+			}
 			if i == ctx.N(24, 96) {
 				return sharedNodeWitness()
 			}
-			if i > ctx.N(24, 96)+20 {
+			if i > ctx.N(24, 96)+26 {
 				return nil
 			}
 			return sharedNodeCase(i, r)
@@ -359,7 +368,10 @@ func init() {
 			if i < 80 {
 				return refObjectDefaultCase(i - 74)
 			}
-			return sameNameTwinCase(ctx, i-80, r)
+			if i < 83 {
+				return allOfDefaultCase(i - 80)
+			}
+			return sameNameTwinCase(ctx, i-83, r)
 		},
 		values: true, defaults: true,
 		nQuick: 400, nThor: 6000, valid: 3, perSite: 3, maxDocs: 120, minDec: 2000,
@@ -2020,7 +2032,7 @@ func strataForC01(ctx *Ctx) []*sem.Case {
 		}
 	}
 	add(6, nullableBranchCase)
-	add(16, controlPatternCase)
+	add(20, controlPatternCase)
 	add(7, ignoredArrayKeywordCase)
 	add(8, extFieldCase)
 	add(6, refObjectDefaultCase)
@@ -2030,6 +2042,9 @@ func strataForC01(ctx *Ctx) []*sem.Case {
 	add(12, mixinBranchCase)
 	add(2, caseIdentifierCase)
 	add(9, anyOfAliasCollisionCase)
+	add(3, allOfDefaultCase)
+	add(6, titledNestedArrayCase)
+	add(22, ignoredKeywordCase)
 	add(12, objectDefaultCase)
 	add(12, nullableDefCase)
 	add(16, nestedOverlapCase)
@@ -2075,6 +2090,9 @@ func controlPatternCase(i int) *sem.Case {
 		{"^a\\\\b$", []string{"a\\b"}, []string{"ab", "a\\\\b"}},
 		{"^\\s+\n\\S+$", []string{"  \nxy"}, []string{"  \n\txy\n", "xy"}},
 		{"^`[a-z]+`$", []string{"`code`"}, []string{"code", "'code'"}},
+		// an escaped backslash followed by text that looks like an escape of another dialect
+		{"^\\\\u0041$", []string{"\\u0041"}, []string{"A", "\\x{0041}", "u0041"}},
+		{"^(\\\\x41|\\\\d)+$", []string{"\\x41", "\\d\\x41"}, []string{"A", "7", "x41"}},
 	}
 	pt := pats[i%len(pats)]
 	mk := func() *sg.Schema { return &sg.Schema{Types: []string{"string"}, Pattern: pt.p} }
@@ -2486,5 +2504,171 @@ func anyOfAliasCollisionCase(i int) *sem.Case {
 	for _, v := range []jsonx.Obj{{{K: "k1", V: true}}, {{K: "k2", V: "ab"}}, {{K: "in", V: "x"}}, {{K: "own0", V: "v"}}, {}} {
 		c.Docs = append(c.Docs, docgen.Doc{V: jsonx.Obj{{K: names[0], V: v}}, Class: "collision", Label: "anyof"})
 	}
+	return c
+}
+
+// allOfDefaultCase: a definition whose properties carry defaults (integer array, string array, scalar, enum), used
+// on its own AND merged through allOf[$ref, {...}] (the composed struct visits the same property nodes a second
+// time): absent and null take the default in the composed object exactly as in the plain one.
+func allOfDefaultCase(i int) *sem.Case {
+	listener := &sg.Schema{Types: []string{"object"}, Props: []sg.Prop{
+		{Name: "ports", S: &sg.Schema{Types: []string{"array"}, Items: &sg.Schema{Types: []string{"integer"}}, Default: []any{jsonx.N(80), jsonx.N(443)}, HasDefault: true}},
+		{Name: "hosts", S: &sg.Schema{Types: []string{"array"}, Items: &sg.Schema{Types: []string{"string"}}, Default: []any{"a", "b"}, HasDefault: true}},
+		{Name: "backlog", S: &sg.Schema{Types: []string{"integer"}, Default: jsonx.N(128), HasDefault: true}},
+		{Name: "ratio", S: &sg.Schema{Types: []string{"number"}, Default: jsonx.Num("0.5"), HasDefault: true}},
+		{Name: "mode", S: &sg.Schema{Types: []string{"string"}, HasEnum: true, Enum: []any{"tcp", "udp"}, Default: "tcp", HasDefault: true}},
+		{Name: "on", S: &sg.Schema{Types: []string{"boolean"}, Default: true, HasDefault: true}},
+	}}
+	extra := &sg.Schema{Types: []string{"object"}, Props: []sg.Prop{{Name: "cert", S: &sg.Schema{Types: []string{"string"}}}}}
+	root := &sg.Schema{Types: []string{"object"}, Defs: []sg.Prop{{Name: "listener", S: listener}}}
+	ref := func() *sg.Schema { return &sg.Schema{Ref: "#/$defs/listener", Target: listener} }
+	switch i % 3 {
+	case 0:
+		root.Props = []sg.Prop{{Name: "plain", S: ref()}, {Name: "secure", S: &sg.Schema{AllOf: []*sg.Schema{ref(), extra}}}}
+	case 1:
+		root.Props = []sg.Prop{{Name: "secure", S: &sg.Schema{AllOf: []*sg.Schema{ref(), extra}}}, {Name: "third", S: &sg.Schema{AllOf: []*sg.Schema{extra, ref()}}}}
+	case 2:
+		root.Props = []sg.Prop{{Name: "a_first", S: &sg.Schema{AllOf: []*sg.Schema{ref(), extra}}}, {Name: "plain", S: ref()}, {Name: "z_last", S: &sg.Schema{AllOf: []*sg.Schema{ref(), {Types: []string{"object"}, Props: []sg.Prop{{Name: "key", S: &sg.Schema{Types: []string{"string"}}}}}}}}}
+	}
+	c := &sem.Case{Root: root, Sig: fmt.Sprintf("allof-default/%d", i%3), NoAuto: true}
+	for _, p := range root.Props {
+		c.Docs = append(c.Docs, docgen.Doc{V: jsonx.Obj{{K: p.Name, V: jsonx.Obj{}}}, Class: "default", Label: "all-absent"},
+			docgen.Doc{V: jsonx.Obj{{K: p.Name, V: jsonx.Obj{{K: "ports", V: nil}, {K: "backlog", V: nil}}}}, Class: "default", Label: "null"},
+			docgen.Doc{V: jsonx.Obj{{K: p.Name, V: jsonx.Obj{{K: "ports", V: []any{jsonx.N(1)}}, {K: "hosts", V: []any{}}, {K: "backlog", V: jsonx.N(0)}, {K: "mode", V: "udp"}, {K: "on", V: false}}}}, Class: "default", Label: "present"})
+	}
+	return c
+}
+
+// titledNestedArrayCase: arrays nested two and three deep whose inner arrays (and element objects / enums) carry a
+// title, generated with --struct-name-from-title (and without): the length limits of every level stay in force.
+// All levels state the same limits (recorded finding outer-array-limits: inner levels are checked against the
+// outer level's numbers).
+func titledNestedArrayCase(i int) *sem.Case {
+	lim := func(s *sg.Schema) *sg.Schema { s.MinItems, s.MaxItems = 1, 3; return s }
+	intS := &sg.Schema{Types: []string{"integer"}}
+	row := lim(&sg.Schema{Types: []string{"array"}, Items: intS, Title: "Row"})
+	var rows *sg.Schema
+	switch i % 3 {
+	case 0:
+		rows = lim(&sg.Schema{Types: []string{"array"}, Items: row})
+	case 1:
+		plane := lim(&sg.Schema{Types: []string{"array"}, Items: row, Title: "Plane"})
+		rows = lim(&sg.Schema{Types: []string{"array"}, Items: plane})
+	case 2:
+		cell := &sg.Schema{Types: []string{"object"}, Title: "Cell", Props: []sg.Prop{{Name: "v", S: intS}}, Required: []string{"v"}}
+		rows = lim(&sg.Schema{Types: []string{"array"}, Items: lim(&sg.Schema{Types: []string{"array"}, Items: cell, Title: "Cells"})})
+	}
+	root := &sg.Schema{Types: []string{"object"}, Title: "Grid", Props: []sg.Prop{{Name: "rows", S: rows}, {Name: "name", S: &sg.Schema{Types: []string{"string"}}}}}
+	c := &sem.Case{Root: root, Sig: fmt.Sprintf("titled-nested-array/%d", i%6), NoAuto: true}
+	if (i/3)%2 == 0 {
+		c.Args = []string{"--struct-name-from-title"}
+		c.RootType = "Grid"
+	}
+	leaf := func(n int) []any {
+		var a []any
+		for k := 0; k < n; k++ {
+			if i%3 == 2 {
+				a = append(a, jsonx.Obj{{K: "v", V: jsonx.N(int64(k))}})
+			} else {
+				a = append(a, jsonx.N(int64(k)))
+			}
+		}
+		if a == nil {
+			a = []any{}
+		}
+		return a
+	}
+	wrap := func(inner []any) any {
+		if i%3 == 1 {
+			return []any{[]any{inner}}
+		}
+		return []any{inner}
+	}
+	for _, n := range []int{0, 1, 3, 4} {
+		c.Docs = append(c.Docs, docgen.Doc{V: jsonx.Obj{{K: "rows", V: wrap(leaf(n))}}, Class: "items", Label: fmt.Sprintf("innermost-%d", n)})
+	}
+	for _, n := range []int{0, 1, 3, 4} {
+		var outer []any
+		for k := 0; k < n; k++ {
+			if i%3 == 1 {
+				outer = append(outer, []any{leaf(1)})
+			} else {
+				outer = append(outer, leaf(1))
+			}
+		}
+		if outer == nil {
+			outer = []any{}
+		}
+		c.Docs = append(c.Docs, docgen.Doc{V: jsonx.Obj{{K: "rows", V: outer}}, Class: "items", Label: fmt.Sprintf("outer-%d", n)})
+	}
+	if i%3 == 1 {
+		for _, n := range []int{0, 4} {
+			var mid []any
+			for k := 0; k < n; k++ {
+				mid = append(mid, leaf(1))
+			}
+			if mid == nil {
+				mid = []any{}
+			}
+			c.Docs = append(c.Docs, docgen.Doc{V: jsonx.Obj{{K: "rows", V: []any{mid}}}, Class: "items", Label: fmt.Sprintf("middle-%d", n)})
+		}
+	}
+	c.Docs = append(c.Docs, docgen.Doc{V: jsonx.Obj{{K: "name", V: "n"}}, Class: "valid", Label: "absent"})
+	return c
+}
+
+// ignoredKeywordCase: keywords of newer drafts that the generator does not implement (dependentRequired,
+// dependentSchemas, propertyNames - also with a pattern that only ECMA-262 can compile -, min/maxProperties,
+// if/then/else, not, const, contains, uniqueItems, unevaluatedProperties, content*, unknown formats), each next to an
+// ordinary object schema. The documents are valid under the FULL meaning of the keyword (so they stay valid whatever
+// is made of it) or break a keyword that is implemented (required, type): verdicts do not depend on the extra keyword.
+func ignoredKeywordCase(i int) *sem.Case {
+	str := func() *sg.Schema { return &sg.Schema{Types: []string{"string"}} }
+	kws := []jsonx.Obj{
+		{{K: "dependentRequired", V: jsonx.Obj{{K: "credit_card", V: []any{"billing_address"}}}}},
+		{{K: "dependentRequired", V: jsonx.Obj{{K: "billing_address", V: []any{"name"}}, {K: "credit_card", V: []any{"billing_address", "name"}}}}},
+		{{K: "dependentSchemas", V: jsonx.Obj{{K: "credit_card", V: jsonx.Obj{{K: "required", V: []any{"billing_address"}}}}}}},
+		{{K: "dependencies", V: jsonx.Obj{{K: "credit_card", V: jsonx.Obj{{K: "required", V: []any{"billing_address"}}}}}}},
+		{{K: "propertyNames", V: jsonx.Obj{{K: "pattern", V: "^(?!_)[a-z_]+$"}}}},
+		{{K: "propertyNames", V: jsonx.Obj{{K: "pattern", V: "^[a-z_]+$"}, {K: "maxLength", V: jsonx.N(30)}}}},
+		{{K: "minProperties", V: jsonx.N(1)}, {K: "maxProperties", V: jsonx.N(10)}},
+		{{K: "if", V: jsonx.Obj{{K: "required", V: []any{"credit_card"}}}}, {K: "then", V: jsonx.Obj{{K: "required", V: []any{"billing_address"}}}}, {K: "else", V: jsonx.Obj{}}},
+		{{K: "not", V: jsonx.Obj{{K: "required", V: []any{"forbidden"}}}}},
+		{{K: "unevaluatedProperties", V: true}},
+		{{K: "patternProperties", V: jsonx.Obj{{K: "^x_", V: jsonx.Obj{{K: "type", V: "string"}}}}}},
+	}
+	kw := kws[i%len(kws)]
+	obj := &sg.Schema{Types: []string{"object"}, Props: []sg.Prop{{Name: "name", S: str()}, {Name: "credit_card", S: str()}, {Name: "billing_address", S: str()},
+		{Name: "kind", S: &sg.Schema{Types: []string{"string"}, Extra: jsonx.Obj{{K: "const", V: "card"}}}},
+		{Name: "mail", S: &sg.Schema{Types: []string{"string"}, Format: "email", Extra: jsonx.Obj{{K: "contentMediaType", V: "text/plain"}}}},
+		{Name: "uid", S: &sg.Schema{Types: []string{"string"}, Format: "uuid"}},
+		{Name: "tags", S: &sg.Schema{Types: []string{"array"}, Items: str(), Extra: jsonx.Obj{{K: "uniqueItems", V: true}, {K: "contains", V: jsonx.Obj{{K: "const", V: "a"}}}, {K: "minContains", V: jsonx.N(1)}}}},
+		{Name: "labels", S: &sg.Schema{Types: []string{"object"}, AddProps: str(), Extra: jsonx.Obj{{K: "propertyNames", V: jsonx.Obj{{K: "pattern", V: "^(?!_)[a-z_]+$"}}}}}},
+	}, Required: []string{"name", "billing_address"}, Extra: kw}
+	root := obj
+	if (i/len(kws))%2 == 1 {
+		root = &sg.Schema{Types: []string{"object"}, Defs: []sg.Prop{{Name: "Payment", S: obj}}, Props: []sg.Prop{{Name: "payment", S: &sg.Schema{Ref: "#/$defs/Payment", Target: obj}}, {Name: "history", S: &sg.Schema{Types: []string{"array"}, Items: &sg.Schema{Ref: "#/$defs/Payment", Target: obj}}}}}
+	}
+	c := &sem.Case{Root: root, Sig: fmt.Sprintf("ignored-keyword/%d", i%len(kws))}
+	c.NoAuto = true
+	wrap := func(o jsonx.Obj) jsonx.Obj {
+		if root != obj {
+			return jsonx.Obj{{K: "payment", V: o}, {K: "history", V: []any{o}}}
+		}
+		return o
+	}
+	valid := []jsonx.Obj{
+		{{K: "name", V: "Ann"}, {K: "billing_address", V: "1 Main St"}},
+		{{K: "name", V: "Ann"}, {K: "billing_address", V: "1 Main St"}, {K: "credit_card", V: "4111"}, {K: "kind", V: "card"}, {K: "mail", V: "a@b.example"}, {K: "uid", V: "123e4567-e89b-12d3-a456-426614174000"}},
+		{{K: "name", V: "Ann"}, {K: "billing_address", V: "1 Main St"}, {K: "tags", V: []any{"a", "b"}}, {K: "labels", V: jsonx.Obj{{K: "team", V: "x"}, {K: "cost_center", V: "y"}}}},
+		{{K: "name", V: "Ann"}, {K: "billing_address", V: "1 Main St"}, {K: "labels", V: jsonx.Obj{}}, {K: "tags", V: []any{"a"}}},
+	}
+	for _, v := range valid {
+		c.Docs = append(c.Docs, docgen.Doc{V: wrap(v), Class: "valid", Label: "valid-under-the-full-keyword"})
+	}
+	for _, v := range []jsonx.Obj{{{K: "name", V: "Ann"}}, {{K: "billing_address", V: "1 Main St"}, {K: "credit_card", V: "4111"}}, {}} {
+		c.Docs = append(c.Docs, docgen.Doc{V: wrap(v), Class: "required", Label: "implemented-keyword-broken"})
+	}
+	c.Docs = append(c.Docs, docgen.Doc{V: wrap(jsonx.Obj{{K: "name", V: jsonx.N(5)}, {K: "billing_address", V: "x"}}), Class: "type", Label: "implemented-keyword-broken"})
 	return c
 }
